@@ -128,12 +128,15 @@ type SimNode struct {
 	// the node's database refused at least one write (injected transient error)
 	storeErrSeen bool
 	maintNext    bool
-	wire         *wireEnd
-	maintenance  bool
-	ownScanned   int
-	ownPayload   map[string]int
-	sigChecked   map[string]bool
-	frameChecked map[int]bool
+	// exchanges initiated during the fair suffix: succeeded / failed
+	fairOK, fairFail int
+	fairLastErr      string
+	wire             *wireEnd
+	maintenance      bool
+	ownScanned       int
+	ownPayload       map[string]int
+	sigChecked       map[string]bool
+	frameChecked     map[int]bool
 }
 
 // running: the node has a live incarnation whose store may be read (a node
